@@ -109,7 +109,10 @@ def get_program(case):
     raise ValueError(case)
 
 
-B09_RESERVED2 = {"IF", "ON", "OR", "TO", "DO", "PI", "SQ"}
+# two-letter BASIC09 reserved words that the tool accepts at the head of a name (IF OR TO are in the tool's keyword table:
+# it refuses names that begin with them, and if it ever accepts one the output is judged like any other; ON and IN are
+# not in that table - README.decb-to-b09.md: variables "cannot be keywords including IN, ON or TO")
+B09_RESERVED2 = {"DO", "PI", "SQ", "ON", "IN"}
 
 
 def peg_text(case):
